@@ -71,6 +71,10 @@ CHECKS = {
          "Seeded store names/descriptions from an adversarial dictionary (metadata field names, JSON fragments, unicode, long), all option combinations, 1-12 commits with cold reopen; StoreInfo must equal the creation-time one in every creation option, Count and contents must equal the model.",
          "Trusted: simulator, model. The harness inspects storeinfo.txt before opening a store so that a corrupted slot_length is reported instead of exhausting memory.",
          "7/C13"),
+ "C15": (EXPL, "deterministic simulation: 2-4 contending writers with opposite key orders under seeded schedules, simulated clock, lock holders stalled by the simulator; commit-duration, no-livelock and follow-up-commit oracle",
+         "2-4 concurrent writers over 4-8 overlapping keys in 1-2 stores (even/odd writers in opposite key order), maxTime 2 s..2 min, caller deadlines 1..300 s, one writer stalled for 1.5 s..10 min at a PRNG-chosen call of its commit in half of the runs. Every non-stalled Commit must return within min(deadline, maxTime) + max(5 s, 25%) of simulated time, the scheduler step cap must not be hit, and a follow-up transaction on the same keys must commit within 30 simulated seconds.",
+         "Trusted: simulator (every timer and deadline of the instrumented packages reads the simulated clock). A lock holder that DIES is only covered as a whole-process crash by C08/C09 (standalone mode has one process); the clustered variant with a separate lock service is not covered. The allowance is a stated bound of the check, not an implementation constant.",
+         "7/C15"),
  "C20": (EXPL, "deterministic simulation: writer/reader rounds under seeded schedules with forced cache evictions, lost entries, small capacities, clock advances; real-time-order oracle vs KV model",
          "Rounds of one writer plus concurrent readers, followed by readers that begin only after the writer's Commit returned; L1/L2 capacities from 1 entry to defaults, cache durations none..long with TTL, injected lost/missing L2 entries, clock advances across expiries, optional restart (cold caches). Every Get/scan/Count of an after-reader must equal the latest committed state.",
          "Trusted: simulator, KV model. Standalone caching only (one simulated process, in-memory L2 behind the proxy); the clustered Redis variant is not covered by this check (the Redis client is exercised by C28 against a stub). A task that spins inside sop is reported as a hang-class violation.",
